@@ -27,10 +27,21 @@ class RigError(Exception):
 # ---------------------------------------------------------------------------------------------------
 # findings
 def load_own_findings(ck):
+    """findings/C08.json is this check's own (most recent) statement of its findings: its entries replace same-id entries the
+    lead has merged into known_findings.json, except that a status 'fixed' given there is kept"""
     f = VERIF / "findings" / "C08.json"
     if f.exists():
-        have = {x["id"] for x in ck.findings}
-        ck.findings += [x for x in json.load(open(f)) if x["id"] not in have]
+        mine = {x["id"]: x for x in json.load(open(f))}
+        merged = []
+        for x in ck.findings:
+            if x["id"] in mine:
+                y = dict(mine.pop(x["id"]))
+                if x.get("status") == "fixed":
+                    y["status"] = "fixed"
+                merged.append(y)
+            else:
+                merged.append(x)
+        ck.findings[:] = merged + list(mine.values())
 
 
 _FINDINGS = []
